@@ -8,11 +8,34 @@ From Coq Require Import NArith ZArith.
 From SkV Require Import Bytes Codec Ledger ChainState Pow Validate ChainDefs MiscProofs.
 From SkV Require Gen_Checkpoints Gen_Functions.
 
+(* at every checkpointed height the only block that passes in-state validation is the one with the listed id; and a
+   block at that POSITION (height = parent's + 1 whenever the parent is stored) with the listed id passes *)
 Theorem C18_checkpoint : forall sha scrypt blake verify P b s id,
   p_known P = Gen_Checkpoints.KNOWN_HASHES -> p_hz P = Gen_Checkpoints.MAX_KNOWN_HASH_HEIGHT ->
   (b_height b, id) ∈ Gen_Checkpoints.KNOWN_HASHES ->
-  (v_block_in_state sha scrypt blake verify P b s = Ok tt <-> block_id sha b = id).
+  (v_block_in_state sha scrypt blake verify P b s = Ok tt -> block_id sha b = id) /\
+  (position_ok b s -> block_id sha b = id -> v_block_in_state sha scrypt blake verify P b s = Ok tt).
 Proof. exact real_checkpoint_enforced. Qed.
+
+(* no block escapes validation by DECLARING a height at or below the horizon: on either side of the horizon an accepted
+   block's height is its parent's plus one, so the shortcut only ever applies to blocks positioned below the last
+   checkpoint (the fix recorded in known_findings.json; C18_declared_height_shortcut_refuted is the shipped behaviour) *)
+Theorem C18_accepted_height_is_position : forall sha scrypt blake verify P b s prev,
+  v_block_in_state sha scrypt blake verify P b s = Ok tt ->
+  cs_blocks s !! b_prev b = Some prev -> b_height b = (b_height prev + 1)%N.
+Proof. exact accepted_height_is_position. Qed.
+
+Theorem C18_declared_height_off_position_rejected : forall sha scrypt blake verify P b s prev,
+  cs_blocks s !! b_prev b = Some prev -> b_height b <> (b_height prev + 1)%N ->
+  (Z.of_N (b_height b) <= p_hz P)%Z ->
+  v_block_in_state sha scrypt blake verify P b s = Err EValidation.
+Proof. exact declared_height_off_position_rejected. Qed.
+
+Theorem C18_declared_height_shortcut_refuted : forall sha scrypt blake verify P b s,
+  p_known P = Gen_Checkpoints.KNOWN_HASHES -> p_hz P = Gen_Checkpoints.MAX_KNOWN_HASH_HEIGHT ->
+  b_height b = 1%N ->
+  v_block_in_state_declared sha scrypt blake verify P b s = Ok tt.
+Proof. exact declared_height_shortcut_refuted. Qed.
 
 Theorem C18_checkpoint_generic : forall sha scrypt blake verify P b s kh,
   v_block_in_state sha scrypt blake verify P b s = Ok tt -> (Z.of_N (b_height b) <= p_hz P)%Z ->
@@ -34,6 +57,9 @@ Theorem C18_genesis_codec :
 Proof. exact genesis_decodes. Qed.
 
 Print Assumptions C18_checkpoint.
+Print Assumptions C18_accepted_height_is_position.
+Print Assumptions C18_declared_height_off_position_rejected.
+Print Assumptions C18_declared_height_shortcut_refuted.
 Print Assumptions C18_checkpoint_generic.
 Print Assumptions C18_table_wf.
 Print Assumptions C18_genesis_codec.
